@@ -63,7 +63,7 @@ Proof. unfold sumZ. induction a as [|x a IH]; cbn [app fold_right]; [reflexivity
 Lemma node_id_nonzero h p f d : (1 <= d)%N -> node_id h p f d <> 0%N.
 Proof.
   intros Hd H. unfold node_id in H. apply N.lor_eq_0_iff in H. destruct H as [_ H].
-  apply N.shiftl_eq_0_iff in H. lia.
+  apply N.shiftl_eq_0_iff in H. unfold depth_clamp in H. lia.
 Qed.
 
 (* ------------------------------------------------------------------ add_vals *)
@@ -463,7 +463,7 @@ Qed.
    injectivity of node_id on the occurring (parent, function, clamped depth) triples implies it *)
 Definition node_id_injective_on (h : N -> N -> N) (T : list (N * N * N)) : Prop :=
   forall p f d p' f' d', In (p, f, d) T -> In (p', f', d') T ->
-    node_id h p f d = node_id h p' f' d' -> p = p' /\ f = f' /\ N.min d 511 = N.min d' 511.
+    node_id h p f d = node_id h p' f' d' -> p = p' /\ f = f' /\ N.min d depth_clamp = N.min d' depth_clamp.
 
 Lemma injective_parent_determined h T : node_id_injective_on h T -> parent_determined h T.
 Proof. intros H p f d p' f' d' H1 H2 E. exact (proj1 (H p f d p' f' d' H1 H2 E)). Qed.
